@@ -45,7 +45,9 @@ RULE = ('image case = one generated header (5 zenithal projections, CRPIX inside
 ASSUMPTIONS = ['oracle WCS: FITS paper II zenithal projections implemented geometrically (refs/wcs_zenithal.py), '
                'checked in every case against astropy.wcs all-corner and random pixels at origin 0 to 1e-9 deg',
                'healpy.ang2pix (nest) in the trusted base; nested interval arithmetic in refs/healmember.py',
-               'regions are built with the real add_circles/add_poly (their shape is judged by C09); what is judged '
+               'regions are built with the real add_circles/add_poly (their shape is judged by C09), some also carry a '
+               'big part inserted explicitly at HEALPix level 1 or 2 (add_circles / add_poly with depth=, add_pixels, '
+               'union with such a region) before or after the fine detail; what is judged '
                'here is the mapping pixel/row -> position -> membership -> blanking',
                'pixels/rows within 1e-7 deg of a HEALPix cell edge are undetermined and not judged (complementarity '
                'of the two negate results and bit-identity of unblanked values are judged on every pixel)',
@@ -71,7 +73,7 @@ MIN_COUNTERS = {'pixels_judged': 200000, 'pixels_expected_blank': 20000, 'pixels
                 'images_with_boundary': 40, 'cube_planes_compared': 10, 'rows_judged': 20000,
                 'rows_expected_removed': 2000, 'rows_expected_kept': 2000, 'rows_nonfinite': 200,
                 'empty_tables': 4, 'catalog_files': 10, 'integer_stored_files': 20, 'images_with_off_sky_pixels': 40, 'pixels_off_sky': 20000,
-                'complementarity_off_sky_pixels': 20000, 'big_plane_images': 3, 'tables_with_case_variant_columns': 100, 'noncontiguous_planes': 100, 'byteswapped_planes': 20,
+                'complementarity_off_sky_pixels': 20000, 'big_plane_images': 3, 'tables_with_case_variant_columns': 100, 'regions_with_explicit_coarse_levels': 60, 'noncontiguous_planes': 100, 'byteswapped_planes': 20,
                 'parent_pixels_outside_view_compared': 10000, 'cli_runs': 2, 'complementarity_pixels': 200000}
 
 EPS = 1e-7          # degrees, undetermined band around a cell edge (DESIGN section 1 rule 2, section 5 C10)
@@ -318,6 +320,41 @@ def cases(seed, tier):
         g = _image_geometry(rng, shape=shp)
         out.append({'kind': 'file', 'geom': g, 'region': _region_spec(rng, g), 'dtype': str(rng.choice(['f4', 'f8'])),
                     'dims': dims, 'cli': bool(rng.random() < 0.15), 'seed': [seed, 'file', i]})
+    # regions that carry pixels inserted explicitly at the coarsest levels (1 and 2) next to fine detail
+    def _coarse(r_, i_):
+        return {'how': COARSE_HOW[i_ % 4], 'level': 1 if (i_ // 4) % 3 else 2, 'radius_deg': float(r_.uniform(15, 40)),
+                'offset_frac': float(r_.uniform(0, 1.3)), 'bearing': float(r_.uniform(0, 360)),
+                'order': 'before' if (i_ // 2) % 2 else 'after'}
+    rco = rng_for('t', 'c10-coarse')
+    for i in range(16):
+        g = dict(base, proj=PROJECTIONS[i % 5], depth=8, ratio=resol_deg(8) / 0.02 if i % 2 else 2.0,
+                 cdelt=(-0.02, 0.02) if i % 2 else (-resol_deg(8) / 2.0, resol_deg(8) / 2.0), shape=(30, 36),
+                 crpix=(18.0, 15.0))
+        spec = {'kind': 'circle', 'centre_index': (12.0, 20.0), 'radius_px': 7.0, 'coarse': _coarse(rco, i)}
+        if i % 4 == 0:
+            spec['coarse'].update(offset_frac=0.0)           # the whole image lies in the coarse part
+        out.append({'kind': 'plane' if i % 2 else 'file', 'geom': g, 'region': spec, 'dtype': 'f4', 'dims': '3d',
+                    'cli': bool(i % 4 == 2), 'seed': ['t', 'coarse', i]})
+        out.append({'kind': 'table' if i % 2 else 'catalog', 'n': 200, 'special': 'mixed', 'fmt': ('csv', 'fits')[i % 4 // 2],
+                    'depth': 3 + i % 6, 'cols': 'std', 'cli': False, 'coarse': dict(_coarse(rco, i), offset_frac=0.3 * (i % 4)),
+                    'seed': ['t', 'coarse-table', i]})
+    rco = rng_for(seed, 'c10-coarse', tier)
+    for i in range(80 if tier == 'quick' else 1200):
+        if i % 2:
+            g = _image_geometry(rco)
+            while g['depth'] > 8:
+                g = _image_geometry(rco)
+            spec = dict(_region_spec(rco, g), coarse=_coarse(rco, int(rco.integers(0, 48))))
+            c = {'kind': 'plane' if i % 4 == 1 else 'file', 'geom': g, 'region': spec, 'dtype': str(rco.choice(['f4', 'f8'])),
+                 'dims': str(rco.choice(['2d', '3d'])), 'cli': bool(rco.random() < 0.2), 'seed': [seed, 'coarse', i]}
+            if c['kind'] == 'file' and min(g['shape']) < 2:
+                c['kind'] = 'plane'
+            out.append(c)
+        else:
+            out.append({'kind': 'table' if i % 4 else 'catalog', 'n': int(rco.integers(20, 800)), 'special': 'mixed',
+                        'fmt': str(rco.choice(['csv', 'fits'])), 'depth': int(rco.integers(3, 9)), 'cols': 'std',
+                        'cli': bool(rco.random() < 0.2), 'coarse': _coarse(rco, int(rco.integers(0, 48))),
+                        'seed': [seed, 'coarse-table', i]})
     # tables carrying extra columns whose names differ from the coordinate columns only in case
     for i, sch in enumerate(CASE_SCHEMES):
         out.append({'kind': 'table', 'n': 120, 'special': 'mixed', 'depth': 8, 'cols': sch, 'seed': ['t', 'casecols', i]})
@@ -498,12 +535,69 @@ def _crosscheck_wcs(z, w, shape, rng):
     return d
 
 
+COARSE_HOW = ('circle', 'poly', 'pixels', 'union')
+
+
+def _add_coarse(o, Region, reg, coarse, ra_c, dec_c):
+    """a big part of the region inserted explicitly at the coarsest levels (1 or 2): add_circles / add_poly with
+    depth=level, add_pixels(p, depth=level), or union with a region built that way.  Returns True when it worked."""
+    lev, R, how = coarse['level'], coarse['radius_deg'], coarse['how']
+    o.see('coarse_part', '%s at level %d' % (how, lev))
+    o.count('regions_with_explicit_coarse_levels')
+    if how == 'circle':
+        ok, _ = _call(o, reg.add_circles, 'add_circles(depth=%d)' % lev, math.radians(ra_c), math.radians(dec_c),
+                      math.radians(R), depth=lev)
+    elif how == 'poly':
+        vra, vdec = sphere.destination(ra_c, dec_c, np.full(6, R), np.array([10.0, 70.0, 130.0, 190.0, 250.0, 310.0]))
+        ok, _ = _call(o, reg.add_poly, 'add_poly(depth=%d)' % lev,
+                      [[math.radians(a), math.radians(d)] for a, d in zip(vra, vdec)], depth=lev)
+    elif how == 'pixels':
+        a, d = sphere.destination(ra_c, dec_c, np.array([0.0, R, R]), np.array([0.0, 40.0, 220.0]))
+        pix = sorted(set(int(x) for x in hp.ang2pix(2 ** lev, a % 360.0, np.clip(d, -90, 90), nest=True, lonlat=True)))
+        ok, _ = _call(o, reg.add_pixels, 'add_pixels(%d pixels, depth=%d)' % (len(pix), lev), pix, lev)
+    else:
+        ok, r2 = _call(o, Region, 'Region(maxdepth=3)', maxdepth=3)
+        if ok:
+            ok, _ = _call(o, r2.add_circles, 'add_circles(depth=%d) on a depth-3 region' % lev, math.radians(ra_c),
+                          math.radians(dec_c), math.radians(R), depth=lev)
+        if ok:
+            ok, _ = _call(o, reg.union, 'union(region holding level-%d pixels)' % lev, r2)
+    return ok
+
+
 def _build_region(o, Region, geom, spec, z):
+    """the fine shape(s) of the spec plus, when asked for, a part inserted explicitly at level 1 or 2 (before or after)"""
+    coarse = spec.get('coarse')
+    if not coarse:
+        return _build_region_fine(o, Region, geom, spec, z, None)
+    ny, nx = geom['shape']
+    ra_m, dec_m = z.index2sky((ny - 1) / 2.0, (nx - 1) / 2.0)
+    if not (np.isfinite(ra_m) and np.isfinite(dec_m)):
+        raise RuntimeError('harness: image centre has no sky position')
+    a, d = sphere.destination(float(ra_m), float(dec_m), coarse['offset_frac'] * coarse['radius_deg'], coarse['bearing'])
+    ra_c, dec_c = float(a) % 360.0, float(np.clip(d, -89.0, 89.0))
+    reg = None
+    if coarse['order'] == 'before':
+        depth = geom['depth']
+        ok, reg = _call(o, Region, 'Region(maxdepth=%d)' % depth, maxdepth=depth)
+        if not ok or not _add_coarse(o, Region, reg, coarse, ra_c, dec_c):
+            return None, None
+    reg, desc = _build_region_fine(o, Region, geom, spec, z, reg)
+    if reg is None:
+        return None, None
+    if coarse['order'] != 'before' and not _add_coarse(o, Region, reg, coarse, ra_c, dec_c):
+        return None, None
+    desc['coarse'] = dict(coarse, centre_deg=[ra_c, dec_c])
+    return reg, desc
+
+
+def _build_region_fine(o, Region, geom, spec, z, reg):
     """real Region from a pixel-space description; returns (region, description in sky terms)"""
     depth = geom['depth'] if 'depth' in geom else spec['depth']
-    ok, reg = _call(o, Region, 'Region(maxdepth=%d)' % depth, maxdepth=depth)
-    if not ok:
-        return None, None
+    if reg is None:
+        ok, reg = _call(o, Region, 'Region(maxdepth=%d)' % depth, maxdepth=depth)
+        if not ok:
+            return None, None
     kind = spec['kind']
     px = abs(geom['cdelt'][0]) if geom else None
     desc = {'kind': kind, 'depth': depth}
@@ -1106,7 +1200,16 @@ def _table_region(o, case, rng):
         kind = 'poly'
     if not ok:
         return None
-    return reg, {'kind': kind, 'centre_deg': [ra0, dec0], 'radius_deg': r, 'depth': depth, 'pixel_size_deg': pix}
+    desc = {'kind': kind, 'centre_deg': [ra0, dec0], 'radius_deg': r, 'depth': depth, 'pixel_size_deg': pix}
+    coarse = case.get('coarse')
+    if coarse:
+        a, d = sphere.destination(ra0, max(min(dec0, 89.0), -89.0), coarse['offset_frac'] * coarse['radius_deg'],
+                                  coarse['bearing'])
+        ra_c, dec_c = float(a) % 360.0, float(np.clip(d, -89.0, 89.0))
+        if not _add_coarse(o, Region, reg, coarse, ra_c, dec_c):
+            return None
+        desc['coarse'] = dict(coarse, centre_deg=[ra_c, dec_c])
+    return reg, desc
 
 
 def _table_rows(rng, n, special, desc):
